@@ -505,26 +505,89 @@ fn run_tree(ctx: &mut Ctx, a: &ANode, route: build::Route, style: AttrStyle, via
     } else {
         (xot, built)
     };
-    let truth = Truth::from(&handles, &xot2);
-    let n = truth.v.len();
-    let mut ck = Checker {
-        xot: &xot2,
-        t: &truth,
-        n,
-        tree: String::new(),
-        first: None,
-        checks: 0,
-    };
-    let _ = &ck.tree;
-    for i in 0..n {
-        ck.check_node(i);
-        if ck.first.is_some() {
+    let mut xot2 = xot2;
+    let mut handles = handles;
+    let mut first: Option<(String, String, String)> = None;
+    let mut phase = "as-built";
+    let mut manipulation = String::new();
+    for round in 0..2 {
+        if round == 1 {
+            // second phase, one tree in three: every traversal has been asked once; now the tree is changed (an element
+            // unwrapped, a comment prepended, a subtree removed) and everything is asked again on the tree as read back
+            // through first_child / next_sibling, so that an answer remembered from before the change shows
+            let hh = a.structural_hash();
+            if hh % 3 != 0 {
+                break;
+            }
+            let elems: Vec<Node> = handles.flat().into_iter().filter(|n| xot2.is_element(*n) && xot2.parent(*n).map_or(false, |p| xot2.is_element(p))).collect();
+            if elems.is_empty() {
+                break;
+            }
+            let e = elems[((hh / 3) % elems.len() as u64) as usize];
+            let parent = xot2.parent(e).unwrap();
+            // the very last questions before the change are about the sibling behind e (and asked again right after it)
+            let behind = xot2.next_sibling(e);
+            if let Some(x) = behind {
+                let _ = guard(|| (xot2.child_index(parent, x), xot2.previous_sibling(x), xot2.next_sibling(x)));
+            }
+            let done = guard(|| match (hh / 11) % 3 {
+                0 => xot2.element_unwrap(e).map(|_| "element_unwrap"),
+                1 => {
+                    let c = xot2.new_comment("zz");
+                    xot2.prepend(parent, c).map(|_| "prepend")
+                }
+                _ => xot2.remove(e).map(|_| "remove"),
+            });
+            match done {
+                Ok(Ok(what)) => manipulation = what.to_string(),
+                _ => break,
+            }
+            if let Some(x) = behind {
+                let want = guard(|| xot2.children(parent).position(|n| n == x)).unwrap_or(None);
+                let got = guard(|| xot2.child_index(parent, x)).unwrap_or(None);
+                if got != want {
+                    first = Some((
+                        "child_index".to_string(),
+                        "ordinary".to_string(),
+                        format!("[asked before and right after {} of its previous sibling] child_index = {:?}, position among children() = {:?}", manipulation, got, want),
+                    ));
+                    phase = "after-manipulation-direct";
+                    break;
+                }
+            }
+            handles = match guard(|| snap::snap(&xot2, handles.node)) {
+                Ok(Ok(s)) => s.handles,
+                _ => break,
+            };
+            phase = "after-manipulation";
+            ctx.count("trees_checked_again_after_manipulation");
+        }
+        let truth = Truth::from(&handles, &xot2);
+        let n = truth.v.len();
+        let mut ck = Checker {
+            xot: &xot2,
+            t: &truth,
+            n,
+            tree: String::new(),
+            first: None,
+            checks: 0,
+        };
+        let _ = &ck.tree;
+        for i in 0..n {
+            ck.check_node(i);
+            if ck.first.is_some() {
+                break;
+            }
+        }
+        ctx.add("iterator_runs_compared", ck.checks);
+        ctx.add("start_nodes", n as u64);
+        if let Some((ep, sk, what)) = ck.first {
+            first = Some((ep.to_string(), sk.to_string(), what));
             break;
         }
     }
-    ctx.add("iterator_runs_compared", ck.checks);
-    ctx.add("start_nodes", n as u64);
-    if let Some((ep, sk, what)) = ck.first {
+    if let Some((ep, sk, what)) = first {
+        let what = if phase == "as-built" || phase == "after-manipulation-direct" { what } else { format!("[after {} on the tree, every traversal had been asked once before] {}", manipulation, what) };
         let harness = what.starts_with("harness:");
         if harness {
             ctx.count("harness_self_check_failed");
@@ -554,10 +617,10 @@ impl Monitor for C07 {
         ]
     }
     fn rule(&self) -> String {
-        "every ordered tree shape with <= 6 ordinary nodes x 3 leaf-kind rotations x {0,1,2} attribute+namespace nodes per element x {parentless, under a document}; random documents / fragments / parentless subtrees <= 60 nodes (also re-parsed); chains of depth 60 and fans of width 30; for EVERY node (incl. attribute and namespace nodes) every traversal entry point and all 12 axes are compared with lists computed from handles recorded at creation time; every iterator is consumed with a bound. Non-trivial = tree with >= 3 nodes; distinct by structural hash".into()
+        "every ordered tree shape with <= 6 ordinary nodes x 3 leaf-kind rotations x {0,1,2} attribute+namespace nodes per element x {parentless, under a document}; random documents / fragments / parentless subtrees <= 60 nodes (also re-parsed); chains of depth 60 and fans of width 30; for EVERY node (incl. attribute and namespace nodes) every traversal entry point and all 12 axes are compared with lists computed from handles recorded at creation time; every iterator is consumed with a bound; one tree in three is then changed (element_unwrap / prepend / remove) and checked once more. Non-trivial = tree with >= 3 nodes; distinct by structural hash".into()
     }
     fn floors(&self, _tier: Tier) -> Vec<(&'static str, u64)> {
-        vec![("iterator_runs_compared", 500_000), ("start_nodes", 20_000), ("trees_with_abnormal_nodes", 500)]
+        vec![("iterator_runs_compared", 500_000), ("start_nodes", 20_000), ("trees_with_abnormal_nodes", 500), ("trees_checked_again_after_manipulation", 5_000)]
     }
     fn assumptions(&self) -> Vec<String> {
         vec![
